@@ -57,6 +57,13 @@ def flatten(items):
         else:
             yield item
 
+def is_file_length(num):
+    """Return whether `num` is a valid file size (non-negative whole number)"""
+    if isinstance(num, float) and not num.is_integer():
+        # This also catches NaN and +/-infinity
+        return False
+    return num >= 0
+
 _md5sum_regex = re.compile(r'^[0-9a-fA-F]{32}$')
 def is_md5sum(value):
     return bool(_md5sum_regex.match(value))
